@@ -53,7 +53,21 @@ func c16Ticket(c *Ctx) {
 		ci.conds[k] = fieldForm(v)
 	}
 	ci.require(c, rule, "tickets are refused when disabled", `c.config.SessionTicketsDisabled`, false, spec, nil, "with SessionTicketsDisabled no ticket may be accepted")
-	ci.require(c, rule, "a ticket shorter than key name + IV + MAC is refused", `lt(len(encrypted),0x40)`, false, spec, nil, "a truncated ticket must be refused (it is sliced at fixed offsets)")
+	// decided on values: with len(encrypted) in 0..63 (shorter than key name + IV + MAC) no accepting return is reachable
+	{
+		var r bool
+		var w *ssa.BasicBlock
+		ci.withInterval("len(encrypted)", 0, 63, func() {
+			r, w = canReachSuccess(d.Blocks[0], nil, successExits(d, spec), deadEdges(d))
+		})
+		c.Evals += len(ci.conds)
+		construct := "a ticket shorter than key name + IV + MAC is refused"
+		if r {
+			c.Violated(rule, fname(d), construct, "a truncated ticket must be refused (it is sliced at fixed offsets): with len(encrypted) in 0..63 the accepting return at "+c.P.pos(lastPos(w))+" is reachable", lastPos(w))
+		} else {
+			c.Holds(rule, fname(d), construct, "with len(encrypted) in 0..63 no accepting return is reachable (decided on values)", d.Pos())
+		}
+	}
 	ci.require(c, rule, "a ticket under an unknown key name is refused", `re:eq\(\?phi\d+,0xffffffffffffffff\)`, false, spec, nil, "a ticket issued under keys that are no longer configured must be refused")
 	// MAC
 	macPat := `re:ne\(call:crypto/subtle\.ConstantTimeCompare\(slice\(encrypted,sub\(len\(encrypted\),0x20\),_\),call:Sum\(const:nil:\[\]byte\)\),0x1\)`
